@@ -34,7 +34,7 @@ func specAllowed(quota, uc uint32) uint32 {
 }
 
 // A completed request leaves no connection behind, on every return path (C18).
-//@ func SendServiceUsageRequest [C18 C20 C11]
+//@ func SendServiceUsageRequest [C18 C20 C11 C17]
 //@   requires ue != nil && sur != nil && ue.RatingClient != nil
 //@   requires [C18 C20] factory.SpecValidated(factory.ChfConfig)
 //@   ensures ghostLiveConns == old(ghostLiveConns)
